@@ -89,6 +89,19 @@ def build_alphabet(darsia):
         G.update_params(mass_coeff=om.copy(), diffusion_coeff=mu.copy(), dim=2)
         return G(IMG_A.copy(), RHS_A.copy())
 
+    def mg_update_scalar():
+        G = shared("MGUPD", lambda: darsia.MG(depth=2, smoother_iterations=2, maxiter=1, mass_coeff=COEF_M.copy(), diffusion_coeff=COEF_D.copy(), dim=2))
+        G.update_params(mass_coeff=0.4, diffusion_coeff=0.7, dim=2)
+        return G(IMG_A.copy(), RHS_A.copy())
+
+    def sb_caller_arrays(which):
+        # the caller keeps one coefficient array for the regularisation (and one for the data weight) and hands the very
+        # same objects to successive calls; the schedule adapts the regularisation during the iteration
+        ell_arr = shared("SB_ELL", lambda: 0.5 + np.random.default_rng(5).random(IMG_A.shape))
+        om_arr = shared("SB_OMEGA", lambda: 0.5 + np.random.default_rng(6).random(IMG_A.shape))
+        img = IMG_A if which == "A" else IMG_A[::-1]
+        return darsia.split_bregman_tvd(img.copy(), mu=0.5, omega=om_arr, ell=ell_arr, dim=2, max_num_iter=3, adaptive=lambda it: it % 2 == 1)
+
     def sb(img, mu, ell=None, explicit=False):
         kw = dict(mu=mu, omega=1.0, ell=ell, dim=2, max_num_iter=3)
         if explicit:
@@ -260,6 +273,9 @@ def build_alphabet(darsia):
         "h1_mgarr_B": lambda: h1_mg_arrays("B"),
         "mg_upd_A": lambda: mg_update_arrays("A"),
         "mg_upd_B": lambda: mg_update_arrays("B"),
+        "mg_upd_scalar": mg_update_scalar,
+        "sb_caller_arrays_A": lambda: sb_caller_arrays("A"),
+        "sb_caller_arrays_B": lambda: sb_caller_arrays("B"),
     }
     return A
 
@@ -273,6 +289,7 @@ LETTERS = [
     "mg2_small", "mg2_regular", "w_bregman_L2_A", "w_bregman_L2_B", "w_bregman_L2fr_A", "w_bregman_L2fr_B", "w_bregman_amg_custom",
     "w_bregman_big_A", "w_bregman_big_B", "w_bregman_big_aa_A", "w_bregman_big_aa_B", "w_newton_big_A", "w_newton_big_B",
     "tvd_obj_A", "tvd_obj_B", "tvd_obj_x0", "w_bregman_amg_multilevel_A", "w_bregman_amg_multilevel_B", "w_newton_cg_multilevel_A",
+    "mg_upd_scalar", "sb_caller_arrays_A", "sb_caller_arrays_B",
 ]
 # letters that can share state with each other (same object or same module-level default)
 GROUPS = {
@@ -301,7 +318,8 @@ GROUPS = {
     "w_adaptive": ["w_adaptive_A", "w_adaptive_B"],
     "w_bregman_aa": ["w_bregman_aa_A", "w_bregman_aa_B"],
     "h1_mg_arrays": ["h1_mgarr_A", "h1_mgarr_B"],
-    "mg_update_arrays": ["mg_upd_A", "mg_upd_B"],
+    "mg_update_arrays": ["mg_upd_A", "mg_upd_B", "mg_upd_scalar"],
+    "sb_caller_arrays": ["sb_caller_arrays_A", "sb_caller_arrays_B"],
     "anderson_boundary_d2r3": ["aa_d2r3_head", "aa_d2r3_tail"],
     "anderson_boundary_d3r2": ["aa_d3r2_head", "aa_d3r2_tail"],
     "w_adaptive_homogeneous": ["w_adaptive_homog_A", "w_adaptive_homog_B"],
